@@ -31,6 +31,7 @@ def run(ctx):
     ctx.rule("R9-obj", "object argument of every ReadDoc call has origin (*self).obj")
     ctx.rule("R9-hint", "size hint operand is None or Some(ReadDoc::length(self.obj))")
     ctx.rule("R9-child", "child serializer aggregates take obj from get()'s result / from self.obj")
+    ctx.rule("R9-len", "OpSet::seq_length (what ReadDoc::length and hence every size hint reports): each count() of visible ops runs over a dedup()ed key / element iterator — conflicting values of one key or element count once")
     ctx.rule("R9-arms", "the ObjType dispatch has an arm for every variant")
     f = ctx.facts()
     n_reads = 0
@@ -121,3 +122,14 @@ def run(ctx):
                "a scalar is exported through %s on %s instead of ScalarValue's own Serialize impl (some values take a different form in the export)" % (t.get("fn"), recv))
     n_sw = [sb for sb, sw in vb.switches() if sb in scalar_region]
     ctx.ob("R9-arms", "AutoSerdeVal|Scalar arm|no branching on the scalar's value", not n_sw, vb.rec["sp"], "switches inside the Scalar arm: %d" % len(n_sw))
+    # ---------------- the announced length is the number of entries, not of values
+    SL = "automerge::op_set2::op_set::OpSet::seq_length"
+    lb = ctx.body(SL)
+    ctx.analysed_fns.add(SL)
+    counts = [(bi, t) for bi, t in lb.calls() if (norm_fn(t.get("fn")) or "").endswith("Iterator::count")]
+    ctx.floor("count() calls in OpSet::seq_length", len(counts), 2)
+    for k, (bi, t) in util.ordinal_keys(counts, lambda it: "seq_length|count"):
+        pv = lb.provenance(t["args"][0], through_calls=True)
+        ok = any(norm_fn(c).split("::")[-1] in ("dedup", "dedup_by", "dedup_by_key") for c in pv.callees())
+        ctx.ob("R9-len", k, ok, t["sp"], "counts distinct keys / elements" if ok else
+               "length() counts every visible value: a key or element with conflicting values is counted more than once, so a container announces more entries than it serializes")
